@@ -356,6 +356,23 @@ class OpGen:
                 op["track_id"] = int(tracks.get_track_id(v if g.out_degree(u) == 2 else u))
                 op["time"] = rng.randrange(node_time(tracks, u) + 1, node_time(tracks, v))
                 t = op["time"]
+        elif r2 < 0.55:
+            # extend a track backwards (before its first node) or forwards (after its last);
+            # tracks of the nodes touched last are preferred
+            k_ = tracks.features.tracklet_key
+            pool = ftids if ftids and rng.random() < 0.6 else tids
+            if pool:
+                tid_ = int(rng.choice(pool))
+                ts_ = [node_time(tracks, n) for n in tracks.graph.nodes
+                       if tracks.graph.nodes[n].get(k_) == tid_]
+                if ts_:
+                    before = list(range(0, min(ts_)))
+                    after = list(range(max(ts_) + 1, T))
+                    side = before if before and (not after or rng.random() < 0.5) else after
+                    if side:
+                        op["track_id"] = tid_
+                        op["time"] = rng.choice(side)
+                        t = op["time"]
         if tracks.segmentation is not None:
             occ = tracks.segmentation[t] != 0
             cells = grow_blob(rng, occ, rng.choice([1, 2, 3, 5, 8]))
@@ -445,6 +462,26 @@ class OpGen:
             e = [int(rng.choice(nodes)), 9000 + rng.randrange(50)]
             rng.shuffle(e)
             return {"op": "add_edge", "edge": e, "force": force}
+        if force and rng.random() < 0.3:
+            # "this is not a division": a daughter is re-attached (forced) to a node of the
+            # other daughter's branch, preferably its end
+            g = tracks.graph
+            kids = [v for v in nodes if g.in_degree(v) == 1
+                    and g.out_degree(next(iter(g.predecessors(v)))) == 2]
+            if kids:
+                v = rng.choice(kids)
+                par = next(iter(g.predecessors(v)))
+                sib = next(x for x in g.successors(par) if x != v)
+                branch, stack = [], [sib]
+                while stack:
+                    x = stack.pop()
+                    branch.append(int(x))
+                    stack.extend(g.successors(x))
+                cand = [x for x in branch if node_time(tracks, x) < node_time(tracks, v)]
+                if cand:
+                    tails = [x for x in cand if g.out_degree(x) == 0]
+                    u = rng.choice(tails) if tails and rng.random() < 0.6 else rng.choice(cand)
+                    return {"op": "add_edge", "edge": [int(u), int(v)], "force": True}
         u = self.pick_node(tracks, nodes)
         r = rng.random()
         tu = node_time(tracks, u)
